@@ -24,7 +24,9 @@ PROPERTY = 'C03'
 LEVEL = 'exploration'
 RULE = (
     'programs of HCI command packets drawn from every registered command class (field values from the '
-    'spec-driven generator, situational handles/addresses substituted), unregistered opcodes and '
+    'spec-driven generator, situational handles/addresses substituted, object identifiers from a small pool), object '
+    'programs (create an advertising set, then a command of each class that names a set by the same identifier, with '
+    'operation/enable fields swept over 0..5), unregistered opcodes and '
     'procedure commands, distributed over 1..6 concurrent callers, with generated order-preserving HCI '
     'delays, controller capability variants and link situations (no peer / advertising peer / connected '
     'peer / peer leaving the link); every registered class is also sent once alone (registry '
@@ -93,6 +95,11 @@ def _substitute(cls, values: dict, sub: dict) -> dict:
     for name in list(v):
         if name in ('connection_handle', 'handle') and isinstance(v[name], int) and sub.get('handle') is not None:
             v[name] = sub['handle']
+        # identifiers of controller-side objects come from a small pool, so that the commands of one program meet
+        # on the same advertising set / CIG / sync handle (create it, then operate on it)
+        if name in ('advertising_handle', 'cig_id', 'big_handle', 'sync_handle', 'advertising_sid') and isinstance(v[name], int) \
+                and sub.get('object') is not None:
+            v[name] = sub['object']
         if name in ('bd_addr',) and isinstance(v[name], hci.Address) and sub.get('addr'):
             v[name] = PEER_PUBLIC
         if name == 'peer_address' and isinstance(v[name], hci.Address) and sub.get('addr'):
@@ -112,7 +119,8 @@ def class_packet(cls):
     from checks.c01_hci_codec import SPECIAL
 
     sub = st.fixed_dictionaries(
-        {'handle': st.sampled_from([None, None, 1, 1, 2, 0x0EFF]), 'addr': st.booleans()}
+        {'handle': st.sampled_from([None, None, 1, 1, 2, 0x0EFF]), 'addr': st.booleans(),
+         'object': st.sampled_from([None, 0, 0, 1, 1, 2])}
     )
     if cls in SPECIAL:
         base = SPECIAL[cls]()
@@ -138,6 +146,39 @@ def unknown_packet():
     return st.tuples(op, st.binary(max_size=12)).map(
         lambda d: bytes([1]) + d[0].to_bytes(2, 'little') + bytes([len(d[1])]) + d[1]
     )
+
+
+def object_programs():
+    """Strategy: create a controller-side object (advertising set), then one command of a class that names such an
+    object by the same identifier, with small enumerated fields (operation, enable, ...) swept over 0..5."""
+    from checks.c01_hci_codec import SPECIAL
+
+    classes = [hci.HCI_Command.command_classes[k] for k in sorted(hci.HCI_Command.command_classes)]
+    users = [c for c in classes if c not in SPECIAL and 'advertising_handle' in specgen.flat_names(c.fields)]
+    params_cls = hci.HCI_LE_Set_Extended_Advertising_Parameters_Command
+
+    def packet(cls, values, obj, small):
+        v = _substitute(cls, values, {'handle': None, 'addr': False, 'object': obj})
+        for name in ('operation', 'fragment_preference', 'enable'):
+            if name in v and isinstance(v[name], int):
+                v[name] = small
+        try:
+            return bytes(cls(**v))
+        except Exception:
+            return bytes(cls(**values))
+
+    def build(d):
+        cls, (pv, _w, _e), (uv, _w2, _e2), obj, small, create = d
+        program = []
+        if create:
+            program.append([packet(params_cls, pv, obj, 0), 0])
+        program.append([packet(cls, uv, obj, small), 0])
+        program.append([bytes(hci.HCI_Read_BD_ADDR_Command()), 0])
+        return {'situation': 'none', 'extended': True, 'delays': [], 'callers': 1, 'program': program}
+
+    return st.sampled_from(users).flatmap(lambda cls: st.tuples(
+        st.just(cls), specgen.fields_strategy(params_cls.fields, 255), specgen.fields_strategy(cls.fields, 255),
+        st.sampled_from([0, 1]), st.integers(0, 5), st.sampled_from([True, True, True, False]))).map(build)
 
 
 def program_strategy():
@@ -463,6 +504,13 @@ def run(ctx) -> None:
         ctx.hyp(f'alone/{cls.__name__}', one, class_packet(cls), max_examples=ctx.pick(4, 60))
     ctx.extra['classes_sent_alone'] = n
     ctx.hyp('programs', lambda c: run_case(ctx, c), program_strategy(), max_examples=ctx.n(2500, 320000))
+
+    def one_object_program(c):
+        ctx.label('object_program')
+        run_case(ctx, c)
+
+    ctx.hyp('object_programs', one_object_program, object_programs(), max_examples=ctx.n(400, 24000))
+    ctx.floor('object_program', 100)
     ctx.floor('concurrent_callers', 20)
     ctx.floor('unregistered_opcode', 20)
     ctx.floor('procedure_command', 20)
